@@ -48,3 +48,18 @@ fn remove_leaves_a_pinned_frame_in_the_cache() {
     assert!(cache.remove(7).is_none(), "pinned frame is not handed out");
     assert!(cache.get(&7).is_some(), "pinned frame must still be cached");
 }
+
+/// "data survives any amount of cache eviction": the eviction counter of the cache statistics was a
+/// `Cell<u16>` incremented with `+ 1` -- the 65 536th eviction overflowed it. In a build with
+/// overflow checks (the dev profile, which the test suite runs in) that is a panic inside the pager:
+/// every worker that evicts dies and the caller waits for its answer for ever (found by a probe that
+/// inserted 1500 rows of 300 bytes through a 16-page cache: it never returned). The statistics
+/// counters saturate now (fix 7ba5924). FAILS (panics) before the fix.
+#[test]
+fn the_cache_survives_more_than_65535_evictions() {
+    let mut cache = PageCache::with_capacity(1);
+    for i in 0..70_000u64 {
+        cache.insert(frame(i)).expect("a one-frame cache with nothing pinned always has room");
+    }
+    assert_eq!(cache.num_frames(), 1);
+}
